@@ -34,6 +34,18 @@ TRY_BRANCH = "std::ops::Try::branch"
 FROM_RESIDUAL = "std::ops::FromResidual::from_residual"
 
 
+OKVAL_COMBINATORS = {"Option::map", "Option::and_then", "Option::filter", "Option::is_some_and", "Option::inspect",
+                     "Result::map", "Result::and_then", "Result::is_ok_and", "Result::inspect", "Option::map_or_else",
+                     "Option::is_none_or", "Poll::map"}
+ERRVAL_COMBINATORS = {"Result::map_err", "Result::or_else", "Result::unwrap_or_else", "Result::is_err_and",
+                      "Result::inspect_err"}
+ELEM_COMBINATORS = {"Iterator::map", "Iterator::filter", "Iterator::filter_map", "Iterator::for_each", "Iterator::any",
+                    "Iterator::all", "Iterator::find", "Iterator::position", "Iterator::flat_map", "Iterator::take_while",
+                    "Iterator::skip_while", "Iterator::inspect", "Iterator::find_map", "StreamExt::map",
+                    "StreamExt::filter", "StreamExt::filter_map", "StreamExt::for_each", "StreamExt::then",
+                    "Iterator::map_while", "Iterator::partition", "Iterator::max_by_key", "Iterator::min_by_key"}
+
+
 def short(path):
     """last two segments of a def path without generic args: 'std::collections::HashMap::<K,V>::insert' -> 'HashMap::insert'"""
     p = re.sub(r"<[^<>]*>", "", path)
@@ -95,6 +107,37 @@ class Tracer:
                         if s.kind == "assign" and s.rv.kind == "agg" and s.rv.agg.get("def") == self.body.id:
                             self._agg_site = (b.idx, i, s.rv)
         return self._agg_site or None
+
+    def param_binding(self, l):
+        """for a closure passed directly to a known combinator: what its first parameter is bound to"""
+        if l != 2:
+            return None
+        if hasattr(self, "_pb"):
+            return self._pb
+        self._pb = None
+        site = self._closure_agg()
+        pt = self.parent_tracer()
+        if site is None or pt is None:
+            return None
+        bb, idx, rv = site
+        clo_local = pt.body.blocks[bb].stmts[idx].lhs
+        if not clo_local.is_local():
+            return None
+        cl = clo_local.local
+        for b in pt.body.calls():
+            t = b.term
+            for ai, a in enumerate(t.args):
+                if a.kind in ("move", "copy") and a.place.is_local() and a.place.local == cl and ai >= 1:
+                    sh = short(t.callee()) if t.callee() else ""
+                    a0 = pt.operand(t.args[0])
+                    if sh in OKVAL_COMBINATORS:
+                        self._pb = ("okval", a0)
+                    elif sh in ERRVAL_COMBINATORS:
+                        self._pb = ("errval", a0)
+                    elif sh in ELEM_COMBINATORS:
+                        self._pb = ("okval", ("call", "std::iter::Iterator::next", (a0,), None))
+                    return self._pb
+        return None
 
     def upvar_term(self, place, seen):
         """place = projection rooted at _1 (closure env) inside a closure body"""
@@ -246,6 +289,8 @@ class Tracer:
         if 1 <= l <= body.arg_count:
             if body.kind == "Closure" and l == 1:
                 parts.append(("env",))
+            elif body.kind == "Closure" and not body.coroutine and self.param_binding(l) is not None:
+                parts.append(self.param_binding(l))
             else:
                 parts.append(("arg", l - 1, body.name_of_local(l) or "_%d" % l, body.id))
         for kind, bb, idx in self.defs.get(l, []):
@@ -412,7 +457,7 @@ TRANSPARENT = {
     "Path::to_path_buf", "Vec::as_slice", "Vec::as_mut_slice", "Cow::into_owned", "Cursor::get_ref",
     "Cursor::get_mut", "Arc::as_ref", "IntoIterator::into_iter", "ToOwned::clone_into", "str::to_string",
     "str::to_owned", "Cow::as_ref", "Pin::into_inner", "Pin::get_ref", "OccupiedEntry::get",
-    "OccupiedEntry::get_mut", "OccupiedEntry::into_mut",
+    "OccupiedEntry::get_mut", "OccupiedEntry::into_mut", "hint::must_use",
 }
 
 
